@@ -115,6 +115,29 @@ RECURSIVE Nsec3Term(_, _, _)
 Nsec3Term(n, salt, k) ==
   IF k = 0 THEN Sha1(Cat(<<Oct(ToWireAbs(Low(n))), Oct(salt)>>))
   ELSE Sha1(Cat(<<Nsec3Term(n, salt, k - 1), Oct(salt)>>))
+\* The same value for large k without a term of depth k: Rep(k, salt, t) is
+\* x -> SHA-1(x || salt) applied k times to t, i.e. RepUnrolled(k, salt, t).
+\* (Terms are evaluated outside TLC; wherever k is small both forms are
+\* handed over and must evaluate to the same octets.)
+Rep(k, salt, t) == [op |-> "rep", k |-> k, salt |-> salt, of |-> <<t>>]
+RECURSIVE RepUnrolled(_, _, _)
+RepUnrolled(k, salt, t) ==
+  IF k = 0 THEN t ELSE Sha1(Cat(<<RepUnrolled(k - 1, salt, t), Oct(salt)>>))
+Nsec3TermR(n, salt, k) == Rep(k, salt, Sha1(Cat(<<Oct(ToWireAbs(Low(n))), Oct(salt)>>)))
+RepLaw(n, salt, k) == RepUnrolled(k, salt, Nsec3TermR(n, salt, 0).of[1]) = Nsec3Term(n, salt, k)
+
+\* NSEC3 parameters a zone can be signed with (RFC 5155 3.1.3 - 3.1.5: 16-bit
+\* iteration count, salt of 0..255 octets); RFC 9276 / Nsec3param::default():
+\* SHA-1, no extra iterations, empty salt
+DefaultParams == [salt |-> <<>>, iters |-> 0]
+IsParams(p) == p.iters \in 0..65535 /\ Len(p.salt) <= 255 /\ \A i \in 1..Len(p.salt) : p.salt[i] \in 0..255
+\* TTL of the NSEC3PARAM RR (GenerateNsec3Config::with_ttl_mode; default: the
+\* TTL of the SOA RR); soa = [ttl, min]
+ParamTtl(mode, soa) ==
+  CASE mode.m = "soa" -> soa.ttl
+    [] mode.m = "soa_min" -> soa.min
+    [] mode.m = "fixed" -> mode.v
+DefaultTtlMode == [m |-> "soa", v |-> 0]
 
 --------------------------------------------------------------------------
 (* Part 2: the generators, transcribed.  Input: the records sorted as      *)
@@ -137,6 +160,9 @@ SkipBefore(s, apex) ==
 Groups(s, apex) == FoldL(GroupAdd, <<>>, SkipBefore(s, apex))
 GOwner(g) == g[1].n
 GTypes(g) == {g[i].t : i \in 1..Len(g)}
+\* more than one SOA RR in the group (records beyond [n, t] may carry a
+\* distinguishing field): the generators refuse the zone
+GSoaCount(g) == Cardinality({i \in 1..Len(g) : g[i].t = T_SOA})
 \* OwnerRrs::is_zone_cut
 GIsCut(g, apex) == ~NameEq(GOwner(g), apex) /\ T_NS \in GTypes(g)
 
@@ -159,7 +185,7 @@ NsecStep(st, g, apex, assume) ==
                  \cup (IF assume /\ NameEq(name, apex) THEN {T_DNSKEY} ELSE {})
                  \cup {t \in GTypes(g) : ~cut.some \/ t \in {T_NS, T_DS}}
         ttl   == st.ttl \/ T_SOA \in GTypes(g)
-    IN IF ~ttl THEN [st EXCEPT !.err = TRUE]
+    IN IF ~ttl \/ GSoaCount(g) > 1 THEN [st EXCEPT !.err = TRUE]
        ELSE [cut |-> cut, prev |-> Some(name, types), out |-> out, done |-> FALSE,
              ttl |-> ttl, err |-> FALSE]
 NsecFinish(st, apex) ==
@@ -214,7 +240,7 @@ N3Step(st, g, apex, exclude, assume) ==
                                THEN {T_NSEC3PARAM} \cup (IF assume THEN {T_DNSKEY} ELSE {})
                                ELSE {})
              ttl      == st.ttl \/ T_SOA \in GTypes(g)
-         IN IF ~ttl THEN [st EXCEPT !.err = TRUE]
+         IN IF ~ttl \/ GSoaCount(g) > 1 THEN [st EXCEPT !.err = TRUE]
             ELSE [cut |-> cut,
                   stack |-> p.rest \o (IF p.found THEN <<p.nent>> ELSE <<>>) \o <<name>>,
                   ents |-> ents, out |-> Append(st.out, [n |-> name, types |-> types]),
